@@ -3,7 +3,7 @@
 (* mutator of Keyvalues one action.  Binary operators take y as the operand.   *)
 EXTENDS KvTreeOps, TLC, Json
 
-CONSTANTS Names, Vals, MaxKids
+CONSTANTS Names, Vals, MaxKids, SetPathKids
 
 VARIABLES x, y, act
 vars == <<x, y>>
@@ -43,11 +43,17 @@ MergeX(n) == /\ \A i \in 1..Len(Merge(x, n)) : Len(Merge(x, n)[i].kids) <= 2
 ClearX == /\ x # <<>> /\ x' = <<>> /\ UNCHANGED y /\ act' = [op |-> "clear"]
 \* lookups change nothing; res is what they must return
 LookupX(n) == /\ UNCHANGED <<x, y>>
-              /\ act' = [op |-> "lookup", name |-> n, res |-> [get |-> GetStr(x, n), has |-> Contains(x, n)]]
+              /\ act' = [op |-> "lookup", name |-> n,
+                          res |-> [get |-> GetStr(x, n), has |-> Contains(x, n), all |-> FindAll(x, n),
+                                   key |-> FindIdx(x, n), block |-> FindBlockIdx(x, n)]]
+SetPathX(a, b, v) == /\ Small(SetPath2(x, a, b, v)) /\ \A i \in 1..Len(SetPath2(x, a, b, v)) : Len(SetPath2(x, a, b, v)[i].kids) <= SetPathKids
+                     /\ x' = SetPath2(x, a, b, v) /\ UNCHANGED y
+                     /\ act' = [op |-> "setpath", a |-> a, b |-> b, val |-> v]
 
 Next == \/ \E nd \in Nodes : AppendX(nd)
         \/ \E nd \in YNodes : AppendY(nd)
         \/ \E n \in Names, v \in Vals : SetX(n, v) \/ CopyMutate(n, v)
+        \/ \E a \in Names, b \in Names, v \in Vals : SetPathX(a, b, v)
         \/ \E n \in Names : DelX(n) \/ EnsureX(n) \/ MergeX(n) \/ LookupX(n)
         \/ ExtendXY \/ IAddXY \/ AddXY \/ ClearX
 
